@@ -116,7 +116,7 @@ def jobs_for(chk):
         nth = len(lay)
         for fast in (0, 1):
             for fresh in ((0, 3) if nth >= 4 else (0, 3) if (nth == 3 and not chk.thorough) else (0, 2, 3) if not chk.thorough else (0, 1, 2, 3)):
-                for scr in (SCRIPTS22 if chk.thorough else SCRIPTS22[:4] if nth < 3 else (SCRIPTS22[:3] if fresh == 0 else SCRIPTS22[:1]) if nth >= 4 else SCRIPTS22[:3]):
+                for scr in (SCRIPTS22 if chk.thorough else SCRIPTS22[:4] if nth < 3 else (SCRIPTS22[:2] if (fresh == 0 and fast == 0) else SCRIPTS22[:1]) if nth >= 4 else SCRIPTS22[:2]):
                     ex.append(("2+2", (fast, fresh, 1 if (fresh == 3 and scr == []) else 0, scr, lay), 4 if nth >= 4 else 1))
         for (fast, fresh, oncb, scr) in (((0, 0, 0, [0, 4]), (0, 5, 0, [])) if (nth >= 4 and not chk.thorough) else ((0, 0, 0, [0, 4]), (1, 0, 0, [4, 0]), (0, 5, 0, []), (0, 0, 2, []))) + (((1, 3, 3, [0, 6]), (0, 6, 0, [2])) if nth < 4 else ()):
             ex.append(("2+2", (fast, fresh, oncb, scr, lay), 4 if nth >= 4 else 1))
@@ -211,12 +211,16 @@ def _init_worker(q):
         _CPU = None
 
 
-def work(job):
+def work(job, watchdog_s=None):
     binp, model, lines, tmo = job
     cmd = [binp]
     if _CPU is not None and shutil.which("taskset"):
         cmd = ["taskset", "-c", str(_CPU), binp]
-    rc, out, err = sh(cmd, inp="\n".join(" ".join(map(str, l)) for l in lines) + "\n", timeout=tmo)
+    env = None
+    if watchdog_s:
+        env = dict(vlib.ENV)
+        env["MJVERIF_WATCHDOG_S"] = str(watchdog_s)
+    rc, out, err = sh(cmd, inp="\n".join(" ".join(map(str, l)) for l in lines) + "\n", timeout=tmo, env=env)
     res = {"runs": 0, "ends": 0, "truncated": 0, "broken": None, "viol": [], "mismatch": [], "incons": [], "hist": collections.Counter(),
            "nontrivial": set(), "distinct": set(), "samples": [], "kernel": []}
     rl = [l for l in out.split("\n") if l]
@@ -390,10 +394,12 @@ def fs_leg(chk, model, only=None):
             out["note"] = "the file-system watcher could not be set up in this environment (inotify unavailable?): watcher event filtering NOT checked in this run"
             continue
         if r[2] == 0:
-            # never alarm on a slow machine: once more, with a longer timeout
-            r2 = run([c], 12000)[0]
-            if len(r2) >= 6 and r2[2] == 1:
-                r = r2 + ["second attempt"]
+            # never alarm on a slow machine: twice more, with longer timeouts
+            for tmo_ms in (12000, 30000):
+                r2 = run([c], tmo_ms)[0]
+                if len(r2) >= 6 and r2[2] == 1:
+                    r = r2 + ["repeated"]
+                    break
         rec = {"change": FS_KINDS[kind], "fast_reload": bool(fast), "visible_after_ms": r[5] if r[2] == 1 else None, "creator_calls": r[3], "template_loads": r[4]}
         out["results"].append(rec)
         if m[:1] != [0] or sp != [1, 1, 1]:
@@ -404,7 +410,7 @@ def fs_leg(chk, model, only=None):
             ssp = run_lines([model, "c20-spec"], [stale])[0]
             out["violations"].append(("no_lost_request violated: a file change (%s) never triggers a reload" % FS_KINDS[kind],
                                       {"case": ["fs", kind, fast], "change": FS_KINDS[kind], "fast_reload": bool(fast),
-                                       "observed": "the watcher was active, the change was made, acquire_env() polled for 12 s kept handing out the environment created before the change "
+                                       "observed": "the watcher was active, the change was made, acquire_env() polled for up to 30 s (3 attempts) kept handing out the environment created before the change "
                                                    "(creator calls %d, loads of the template %d)" % (r[3], r[4]),
                                        "abstract_history": stale, "coq_spec_on_it (no_lost_request guard_excludes no_spurious_rebuild)": ssp,
                                        "how": "./check C20 --replay <this file>"}, False))
@@ -523,6 +529,26 @@ def main():
         futs = {ex.submit(work, tuple(jobs[i])): i for i in order}
         for f in concurrent.futures.as_completed(futs):
             results[futs[f]] = f.result()
+    # A watchdog / time-out report may be a starved process on a loaded machine rather than a dead-lock: the input of
+    # such a job is run again ALONE (nothing else of this check is running now, not pinned to a cpu), with a 60 s
+    # watchdog (still scaled by the load), up to 3 times.  A dead-lock introduced by a change reproduces every time.
+    retries = 0
+    for i in range(len(jobs)):
+        if results[i] is not None and results[i]["broken"]:
+            first = results[i]["broken"]
+            for attempt in range(3):
+                retries += 1
+                j = list(jobs[i])
+                j[3] = j[3] * 3
+                r = work(tuple(j), watchdog_s=60)
+                if not r["broken"]:
+                    r["hist"]["job repeated alone after a watchdog / time-out report (starved, not dead-locked)"] += 1
+                    results[i] = r
+                    break
+                results[i] = r
+                results[i]["broken"]["first_report"] = first
+                results[i]["broken"]["attempts_alone"] = attempt + 1
+    chk.cov["watchdog_retries"] = retries
     chk.notes["schedules_s"] = round(time.time() - chk.t0 - chk.notes["build_s"], 1)
     # ---- aggregate -------------------------------------------------------------------------
     hist = collections.Counter()
